@@ -1460,11 +1460,14 @@ fn cover_scale(profile: &str, p: &Pools, rng: &mut Rng, out: &mut Vec<String>, p
                     let c = |rng: &mut Rng| Vector4::new(small(rng), small(rng), small(rng), small(rng));
                     let (m, pt) = loop { let m = Matrix4::from_cols(c(rng), c(rng), c(rng), c(rng)); let pt = Point3::from_vec(rv3(rng));
                         if (m * pt.to_homogeneous()).w.n != 0 { break (m, pt); } };
-                    vec![Val::M4(m), Val::P3(pt)]
+                    // every other time an affine matrix (w = 1 before scaling: the scaled one has w = k)
+                    if _rep == 1 { let a = Matrix4::from_cols(m.x.truncate().extend(q(0, 1)), m.y.truncate().extend(q(0, 1)), m.z.truncate().extend(q(0, 1)), m.w.truncate().extend(q(1, 1)));
+                        vec![Val::M4(a), Val::P3(pt)] } else { vec![Val::M4(m), Val::P3(pt)] }
                 }
                 "from_homogeneous" => vec![Val::V4(rv3(rng).extend(small_nz(rng)))],
-                "q_invert" | "q_normalize" => vec![Val::Q(Quaternion::from_sv(small_nz(rng), rv3(rng)))],
-                "v3_normalize" | "v3_magnitude" | "v3_is_zero" => vec![Val::V3(nz3(rng))],
+                // every other time a unit quaternion (the scaled one is nearly unit for the factors next to 1)
+                "q_invert" | "q_normalize" => vec![Val::Q(if _rep == 1 { uq(p, rng) } else { Quaternion::from_sv(small_nz(rng), rv3(rng)) })],
+                "v3_normalize" | "v3_magnitude" | "v3_is_zero" => vec![Val::V3(if _rep == 1 { uv3(p, rng) } else { nz3(rng) })],
                 "v2_normalize" | "v2_is_zero" => vec![Val::V2(Vector2::new(small_nz(rng), small(rng)))],
                 "v4_normalize" | "v4_is_zero" => vec![Val::V4(nz3(rng).extend(small(rng)))],
                 "v2_angle" => vec![Val::V2(Vector2::new(small_nz(rng), small(rng))), Val::V2(Vector2::new(small(rng), small_nz(rng)))],
